@@ -9,6 +9,7 @@ import (
 
 	"github.com/gofiber/fiber/v2"
 	"github.com/versity/versitygw/auth"
+	"github.com/versity/versitygw/backend/posix"
 	"github.com/versity/versitygw/internal/zzvf"
 	"github.com/versity/versitygw/internal/zzvfbe"
 	"github.com/versity/versitygw/s3api/controllers"
@@ -401,4 +402,80 @@ var vfForceNoBody = false
 func VfNoBodyStream() {
 	vfForceNoBody = true
 	VfAuthChain()
+}
+
+// VfAuthE2E: C02 end to end on storage – the middleware chain the real server constructor installs and the real PutObject
+// route over the real posix backend on the file-system model, with the signature computation as the recording stand-in:
+// a PUT (flat or nested key, new or existing) without credentials, for an unknown key, or whose signature verification
+// fails leaves the gateway root byte-identical (no file, no directory, no attribute created or changed) and is answered
+// with an error.
+func VfAuthE2E() {
+	be := posix.VfWorldWithBucket()
+	zzvfbe.SigChecks = nil
+	zzvfbe.ResetChecks()
+	root := middlewares.RootUserConfig{Access: "root", Secret: "rootsec"}
+	zzvfbe.Routes = nil
+	_, nerr := New(new(fiber.App), be, root, "7070", "us-east-1", vfIAM{}, nil, nil, nil, nil, WithQuiet())
+	zzvf.Assert(nerr == nil, "server-constructed")
+	chain := zzvfbe.ChainFor("PUT", "/:bucket/:key/*")
+	if len(chain) == 0 {
+		zzvf.Fail("route-registered")
+		return
+	}
+	ctx := zzvfbe.NewRequest()
+	r := zzvfbe.R
+	r.Method = "PUT"
+	r.Locals["region"] = "us-east-1"
+	r.Params["bucket"] = "bkt"
+	if zzvf.Choice("nested_key", 2) == 1 {
+		r.Params["key"] = "photos"
+		r.Params["*1"] = "2024/a"
+		r.Path = "/bkt/photos/2024/a"
+	} else {
+		r.Params["key"] = "a"
+		r.Params["*1"] = ""
+		r.Path = "/bkt/a"
+	}
+	const scope = "/20240506/us-east-1/s3/aws4_request"
+	cred := zzvf.Choice("credentials", 3) // 0 none, 1 unknown key, 2 root
+	switch cred {
+	case 1:
+		r.SetHeader("Authorization", "AWS4-HMAC-SHA256 Credential=nobody"+scope+",SignedHeaders=host,Signature=abcd")
+	case 2:
+		r.SetHeader("Authorization", "AWS4-HMAC-SHA256 Credential=root"+scope+",SignedHeaders=host,Signature=abcd")
+	}
+	if cred != 0 {
+		r.SetHeader("X-Amz-Date", "20240506T070809Z")
+	}
+	r.SetHeader("X-Amz-Content-Sha256", "UNSIGNED-PAYLOAD")
+	r.SetHeader("Content-Length", "1")
+	body := &vfBody{data: []byte("B")}
+	r.Stream = body
+	r.Body = []byte("B")
+	before := posix.VfSnapshotRoot()
+	for i, h := range chain {
+		n := zzvfbe.W.NextCalls
+		_ = h(ctx)
+		if i < len(chain)-1 && zzvfbe.W.NextCalls == n {
+			break
+		}
+	}
+	zzvf.Reach("answered")
+	verified := false
+	for _, s := range zzvfbe.SigChecks {
+		if s.Valid {
+			verified = true
+		}
+	}
+	if !verified {
+		zzvf.Reach("unauthenticated")
+		zzvf.Assert(zzvfbe.W.Status >= 400, "unauthenticated-put-is-answered-with-an-error")
+		after := posix.VfSnapshotRoot()
+		if !posix.VfSnapshotsEqual(before, after) {
+			zzvf.Trace("storage " + posix.VfSnapshotDiff(before, after))
+		}
+		zzvf.Assert(posix.VfSnapshotsEqual(before, after), "unauthenticated-put-leaves-the-storage-byte-identical")
+	} else if zzvfbe.W.Status < 300 {
+		zzvf.Reach("stored")
+	}
 }
